@@ -61,6 +61,11 @@ pub fn proof_json<C: Cv>(p: &ProofM<C::G>) -> Value {
 
 /// Apply adversarial edits to a proof. Returns the edited encoding (bit flips and truncation act on bytes).
 pub fn apply_edits<C: Cv>(p: &ProofM<C::G>, edits: &[Edit]) -> Vec<u8> {
+    apply_edits_r::<C>(p, edits, None)
+}
+
+/// `r`: the verifier's combiner for the unaltered proof (needed by Edit::Rshift)
+pub fn apply_edits_r<C: Cv>(p: &ProofM<C::G>, edits: &[Edit], r: Option<Fr<C>>) -> Vec<u8> {
     let mut m = p.clone();
     let mut bytes: Option<Vec<u8>> = None;
     let g = |v: &Val| gen_mul::<C>(&v.f::<Fr<C>>());
@@ -97,6 +102,11 @@ pub fn apply_edits<C: Cv>(p: &ProofM<C::G>, edits: &[Edit]) -> Vec<u8> {
     for e in edits {
         match e {
             Edit::Add { f, v } => *sc(&mut m, f) += v.f::<Fr<C>>(),
+            Edit::Rshift { d } => {
+                let d = d.f::<Fr<C>>();
+                m.t_x_blinding += d;
+                m.e_blinding -= r.unwrap_or_else(Fr::<C>::one) * d;
+            }
             Edit::Set { f, v } => *sc(&mut m, f) = v.f::<Fr<C>>(),
             Edit::Addpt { f, v } => {
                 let q = (pt(&mut m, f).into_group() + g(v).into_group()).into_affine();
@@ -1389,7 +1399,22 @@ pub fn run_program<C: Cv>(prog: &Program, record: bool) -> RunOut<C> {
         let bytes = proof.to_bytes().expect("to_bytes");
         out.proof_bytes = Some(bytes.clone());
         out.proof = Some(m.clone());
-        let mut wire = if prog.tamper.is_empty() { bytes.clone() } else { apply_edits::<C>(&m, &prog.tamper) };
+        // the combiner attack needs the weight r the verifier derives for the unaltered proof: verify once, silently, and read it
+        let mut r_honest: Option<Fr<C>> = None;
+        if prog.tamper.iter().any(|e| matches!(e, Edit::Rshift { .. })) {
+            let ppc0 = make_pc::<C>(&prog.p.pc);
+            let vo0 = run_verifier::<C>(prog.vside(), proof, wide, consts.clone(), commits.clone(), ppc0, true);
+            for e in &vo0.events {
+                if matches!(e["ev"].as_str(), Some("verify") | Some("verify2")) {
+                    for o in e["tx"].as_array().cloned().unwrap_or_default() {
+                        if o["o"] == "C" && o["l"] == "r" && o["f"] != json!(0) {
+                            r_honest = dec_s::<C>(&o["val"]);
+                        }
+                    }
+                }
+            }
+        }
+        let mut wire = if prog.tamper.is_empty() { bytes.clone() } else { apply_edits_r::<C>(&m, &prog.tamper, r_honest) };
         if prog.bytes {
             // byte-level session: what the encoder produced, what the adversary put on the wire, what the decoder is handed
             if record {
